@@ -9,12 +9,13 @@
 #include "post.h"
 i128 g_x, g_y;                      /* ghost concrete points: arbitrary, never assigned by the code */
 i128 g_d;                           /* ghost candidate divisor / multiple for the gcd / lcm helpers ("greatest", "least") */
+i128 g_e;                           /* ghost divisor of a gcd result ("whatever divides the gcd divides the arguments") */
 #ifndef GBITS
 #define GBITS (ZBITS + 2)
 #endif
 #define GB (((i128)1) << GBITS)
-#define GRANGE (inb(g_x, GB) && inb(g_y, GB) && inb(g_d, GB))
-#define HGHOSTS GHOSTG(i128, g_x); GHOSTG(i128, g_y); GHOSTG(i128, g_d)
+#define GRANGE (inb(g_x, GB) && inb(g_y, GB) && inb(g_d, GB) && inb(g_e, GB))
+#define HGHOSTS GHOSTG(i128, g_x); GHOSTG(i128, g_y); GHOSTG(i128, g_d); GHOSTG(i128, g_e)
 #define CFRESH2(tag) (FRESH(tag, self, sizeof(C)) && FRESH(tag, x, sizeof(C)))
 #define RV __CPROVER_return_value
 #define OLDZ(z) ((i128)(((u128)__CPROVER_old((z).f0.a[0].f1) << 64) | (u128)__CPROVER_old((z).f0.a[0].f0)))
@@ -30,46 +31,59 @@ i128 g_d;                           /* ghost candidate divisor / multiple for th
 #define Y zraw(*y)
 #define W zraw(*z)
 #define R zraw(*ret)
-/* r is the greatest common divisor of x and y (r >= 0, gcd(0,0) = 0): a common divisor, and every common divisor g_d
- * divides it (g_d is an arbitrary ghost that is kept when the contract replaces a call: the caller reads the clause at
- * the g_d of its own harness) */
+/* r is the greatest common divisor of x and y (r >= 0, gcd(0,0) = 0): a common divisor; every common divisor g_d
+ * divides it; every divisor g_e of it divides x and y.  g_d and g_e are arbitrary ghosts that are KEPT when the
+ * contract replaces a call: the caller reads the clauses at the ghosts of its own harness.
+ * WHEN(tag, e): a hypothesis that exists only while the contract is the enforced one: the lemma instances LEM(..) (valid
+ * facts, lemmas.smt2) and ghost alignments such as g_e == R (the ghost is arbitrary, so the guarded clause is the
+ * unguarded one).  When the contract replaces a call the clause is used without them. */
+#define WHEN(tag, e) TOP(tag, e)
 #define IS_GCD(r, x, y) ((r) >= 0 && dvd(r, x) && dvd(r, y) && (((r) == 0) == ((x) == 0 && (y) == 0)) \
    && IMP((x) != 0, (r) <= iabs(x)) && IMP((y) != 0, (r) <= iabs(y)))
 #define GCD_GREATEST(r, x, y) IMP(dvd(g_d, x) && dvd(g_d, y), dvd(g_d, r))
+#define GCD_LOWER(r, x, y) IMP(dvd(g_e, r), dvd(g_e, x) && dvd(g_e, y))
 /* gcd_helper(x, y) = (y == 0) ? x : gcd_helper(y, x % y): Euclid on non-negative arguments.
  * NOT RUN BY THE DRIVER (`//@manual`): goto-instrument --enforce-contract forbids recursion in the checked function
  * (obligation no_recursive_call); the inductive check, where the recursive call is replaced by this very contract,
- * needs --enforce-contract-rec (a driver key such as rec=1).  Run by hand that way it holds (bounded mode: 410
- * obligations, 86 s; see the unit's README section in the final report).  Partial correctness; it terminates because
- * 0 <= x % y < y (not machine-checked).  The driver covers the body through gcd2_unwound (bounded) and ASSUMES this
- * contract in gcd2. */
-//@manual id=gcd_helper fn=_ZNK4ikos10congruenceINS_8z_numberEE10gcd_helperES1_S1_ props=C08 defs=ZM_SMALL=16,ZBITS=3 rec=1
+ * needs --enforce-contract-rec (a driver key such as rec=1).  Run by hand that way it holds (see the final report).
+ * Partial correctness; it terminates because 0 <= x % y < y (not machine-checked).  The driver covers the body through
+ * gcd2_unwound (bounded) and ASSUMES this contract in gcd2. */
+static inline bool LS_GCDH(i128 x, i128 y, i128 r){
+  i128 q = D_(x, y), m = R_(x, y);
+  return T_DIVID(x, y) && T_MULR(r, y, q) && T_SUM(r, M_(y, q), m, x) && T_MULR(g_d, y, q) && T_DIFF(g_d, x, M_(y, q), m) && T_SMALL(r, x) && T_SMALL(r, y)
+      && T_TRANS(g_e, r, x) && T_TRANS(g_e, r, y); }
+//@manual id=gcd_helper fn=_ZNK4ikos10congruenceINS_8z_numberEE10gcd_helperES1_S1_ props=C08 rec=1
 void _ZNK4ikos10congruenceINS_8z_numberEE10gcd_helperES1_S1_(Z *ret, C *self, Z *x, Z *y)
 __CPROVER_requires(FRESH(gcd_helper, ret, sizeof(Z)) && FRESH(gcd_helper, x, sizeof(Z)) && FRESH(gcd_helper, y, sizeof(Z)))
-__CPROVER_requires(X >= 0 && Y >= 0 && X < CTB && Y < CTB && inb(g_d, CTB))
+__CPROVER_requires(X >= 0 && Y >= 0 && X < CTB && Y < CTB && inb(g_d, CTB) && inb(g_e, CTB))
 __CPROVER_assigns(*ret)
-__CPROVER_ensures(IS_GCD(R, X, Y))
-__CPROVER_ensures(IMP(LEM(LS_GCDH(X, Y, R, g_d)), GCD_GREATEST(R, X, Y)));
+__CPROVER_ensures(IMP(WHEN(gcd_helper, LEM(LS_GCDH(X, Y, R))), IS_GCD(R, X, Y) && GCD_GREATEST(R, X, Y) && GCD_LOWER(R, X, Y)));
 void h_gcd_helper(void){ IN(Z, a); IN(Z, b); HGHOSTS; C c; Z r; _ZNK4ikos10congruenceINS_8z_numberEE10gcd_helperES1_S1_(&r, &c, &a, &b); REACH; }
 
 /* gcd(x, y) = gcd_helper(|x|, |y|) */
-//@check id=gcd2 fn=_ZNK4ikos10congruenceINS_8z_numberEE3gcdES1_S1_ props=C08 defs=ZM_SMALL=16,ZBITS=3 replace=_ZNK4ikos10congruenceINS_8z_numberEE10gcd_helperES1_S1_
+static inline bool LS_GCD2(i128 x, i128 y, i128 r){
+  return T_DIFF(r, 0, -x, x) && T_DIFF(r, 0, -y, y) && T_DIFF(g_d, 0, x, -x) && T_DIFF(g_d, 0, y, -y) && T_TRANS(g_e, r, x) && T_TRANS(g_e, r, y); }
+//@check id=gcd2 fn=_ZNK4ikos10congruenceINS_8z_numberEE3gcdES1_S1_ props=C08 replace=_ZNK4ikos10congruenceINS_8z_numberEE10gcd_helperES1_S1_
+//@check id=gcd2_b fn=_ZNK4ikos10congruenceINS_8z_numberEE3gcdES1_S1_ tag=gcd2 harness=h_gcd2 props=C08 defs=ZM_SMALL=16,ZBITS=3 tier=thorough replace=_ZNK4ikos10congruenceINS_8z_numberEE10gcd_helperES1_S1_
 void _ZNK4ikos10congruenceINS_8z_numberEE3gcdES1_S1_(Z *ret, C *self, Z *x, Z *y)
 __CPROVER_requires(FRESH(gcd2, ret, sizeof(Z)) && FRESH(gcd2, x, sizeof(Z)) && FRESH(gcd2, y, sizeof(Z)))
-__CPROVER_requires(inb(X, CTB) && inb(Y, CTB) && inb(g_d, CTB))
+__CPROVER_requires(inb(X, CTB) && inb(Y, CTB) && inb(g_d, CTB) && inb(g_e, CTB))
 __CPROVER_assigns(*ret)
-__CPROVER_ensures(IS_GCD(R, X, Y))
-__CPROVER_ensures(GCD_GREATEST(R, X, Y));
+__CPROVER_ensures(IMP(WHEN(gcd2, LEM(LS_GCD2(X, Y, R))), IS_GCD(R, X, Y) && GCD_GREATEST(R, X, Y) && GCD_LOWER(R, X, Y)));
 void h_gcd2(void){ IN(Z, a); IN(Z, b); HGHOSTS; C c; Z r; _ZNK4ikos10congruenceINS_8z_numberEE3gcdES1_S1_(&r, &c, &a, &b); REACH; }
 /* BOUNDED: the same contract with the real recursive gcd_helper in line (Euclid on values below 2^4 makes at most 6
  * recursive calls) */
 //@check id=gcd2_unwound fn=_ZNK4ikos10congruenceINS_8z_numberEE3gcdES1_S1_ tag=gcd2 harness=h_gcd2 props=C08 defs=ZM_SMALL=16,ZBITS=3,CTBITS=4 unwind=8
-//@check id=gcd3 fn=_ZNK4ikos10congruenceINS_8z_numberEE3gcdES1_S1_S1_ props=C08 defs=ZM_SMALL=16,ZBITS=3 replace=_ZNK4ikos10congruenceINS_8z_numberEE3gcdES1_S1_
+/* gcd(x, y, z) = gcd(x, gcd(y, z)).  That the result divides y and z comes from GCD_LOWER of the inner call at
+ * g_e = result: the enforced form is guarded by that alignment. */
+//@check id=gcd3 fn=_ZNK4ikos10congruenceINS_8z_numberEE3gcdES1_S1_S1_ props=C08 replace=_ZNK4ikos10congruenceINS_8z_numberEE3gcdES1_S1_
+//@check id=gcd3_b fn=_ZNK4ikos10congruenceINS_8z_numberEE3gcdES1_S1_S1_ tag=gcd3 harness=h_gcd3 props=C08 defs=ZM_SMALL=16,ZBITS=3 tier=thorough replace=_ZNK4ikos10congruenceINS_8z_numberEE3gcdES1_S1_
 void _ZNK4ikos10congruenceINS_8z_numberEE3gcdES1_S1_S1_(Z *ret, C *self, Z *x, Z *y, Z *z)
 __CPROVER_requires(FRESH(gcd3, ret, sizeof(Z)) && FRESH(gcd3, x, sizeof(Z)) && FRESH(gcd3, y, sizeof(Z)) && FRESH(gcd3, z, sizeof(Z)))
-__CPROVER_requires(inb(X, CTB) && inb(Y, CTB) && inb(W, CTB) && inb(g_d, CTB))
+__CPROVER_requires(inb(X, CTB) && inb(Y, CTB) && inb(W, CTB) && inb(g_d, CTB) && inb(g_e, CTB))
 __CPROVER_assigns(*ret)
-__CPROVER_ensures(R >= 0 && dvd(R, X) && dvd(R, Y) && dvd(R, W) && ((R == 0) == (X == 0 && Y == 0 && W == 0)))
+__CPROVER_ensures(R >= 0 && dvd(R, X) && ((R == 0) == (X == 0 && Y == 0 && W == 0)))
+__CPROVER_ensures(IMP(WHEN(gcd3, g_e == R), dvd(R, Y) && dvd(R, W)))
 __CPROVER_ensures(IMP(X != 0, R <= iabs(X)) && IMP(Y != 0, R <= iabs(Y)) && IMP(W != 0, R <= iabs(W)))
 __CPROVER_ensures(IMP(dvd(g_d, X) && dvd(g_d, Y) && dvd(g_d, W), dvd(g_d, R)));
 void h_gcd3(void){ IN(Z, a); IN(Z, b); IN(Z, c); HGHOSTS; C s; Z r; _ZNK4ikos10congruenceINS_8z_numberEE3gcdES1_S1_S1_(&r, &s, &a, &b, &c); REACH; }
@@ -113,8 +127,7 @@ __CPROVER_requires(inb(zraw(*a), CTB) && inb(zraw(*b), CTB) && TOP(ctor_ab, GRAN
 __CPROVER_assigns(*self)
 __CPROVER_ensures(POST_ctor_ab(*self, zraw(*a), zraw(*b)))
 __CPROVER_ensures(TOP(ctor_ab, SOUND_ctor_ab(*self, zraw(*a), zraw(*b))));
-void h_ctor_ab(void){ IN(Z, a); IN(Z, b); HGHOSTS; C r; _ZN4ikos10congruenceINS_8z_numberEEC2ES1_S1_(&r, &a, &b);
-  SATGUARD(LEM(LS_CTOR(zraw(a), zraw(b), c_b(r), g_x)) && zraw(a) < -1 && zraw(b) < -1 && c_has(r, g_x)); REACH; }
+void h_ctor_ab(void){ IN(Z, a); IN(Z, b); HGHOSTS; C r; _ZN4ikos10congruenceINS_8z_numberEEC2ES1_S1_(&r, &a, &b); REACH; }
 
 /* normalize() [private]: brings the modulus to |a| and the remainder into [0, |a|) and leaves the described set unchanged */
 //@check id=normalize fn=_ZN4ikos10congruenceINS_8z_numberEE9normalizeEv props=C08,C04
@@ -124,7 +137,7 @@ __CPROVER_requires(FRESH(normalize, self, sizeof(C)) && self->f0 <= 1 && inb(c_a
 __CPROVER_assigns(*self)
 __CPROVER_ensures(c_okz(*self, CTB) && self->f0 == __CPROVER_old(self->f0))
 __CPROVER_ensures(c_a(*self) == iabs(OLDZ(self->f1)) && c_b(*self) == (OLDZ(self->f1) == 0 ? OLDZ(self->f2) : fmod_(OLDZ(self->f2), OLDZ(self->f1))))
-__CPROVER_ensures(TOP(normalize, IMP(LEM(LS_CTOR(OLDZ(self->f1), OLDZ(self->f2), c_b(*self), g_x)), ab_has(c_a(*self), c_b(*self), g_x) == ab_has(OLDZ(self->f1), OLDZ(self->f2), g_x))));
+__CPROVER_ensures(TOP(normalize, IMP(LEM(T_NF(OLDZ(self->f1), OLDZ(self->f2), g_x)), ab_has(c_a(*self), c_b(*self), g_x) == ab_has(OLDZ(self->f1), OLDZ(self->f2), g_x))));
 void h_normalize(void){ IN(C, a); HGHOSTS; _ZN4ikos10congruenceINS_8z_numberEE9normalizeEv(&a); REACH; }
 
 /* congruence(): top */
@@ -247,7 +260,8 @@ void h_ne(void){ IN(C, a); IN(C, b); _ZNK4ikos10congruenceINS_8z_numberEEneERKS2
 #else
 #define LEQ_EXACT 1
 #endif
-//@check id=leq fn=_ZNK4ikos10congruenceINS_8z_numberEEleERKS2_ props=C08,C04 defs=ZM_SMALL=16,ZBITS=3
+//@check id=leq fn=_ZNK4ikos10congruenceINS_8z_numberEEleERKS2_ props=C08,C04
+//@check id=leq_b fn=_ZNK4ikos10congruenceINS_8z_numberEEleERKS2_ tag=leq harness=h_leq props=C08,C04 defs=ZM_SMALL=16,ZBITS=3
 //@check id=leq_exact fn=_ZNK4ikos10congruenceINS_8z_numberEEleERKS2_ tag=leq harness=h_leq props=C04 defs=ZM_SMALL=16,ZBITS=3
 unsigned char _ZNK4ikos10congruenceINS_8z_numberEEleERKS2_(C *self, C *x)
 __CPROVER_requires(CFRESH2(leq) && c_ok(*self) && c_ok(*x) && TOP(leq, GRANGE))
@@ -274,15 +288,18 @@ void h_##tag(void){ IN(C, a); IN(C, b); HGHOSTS; C r; fn(&r, &a, &b); REACH; }
 #define CBIN(tag, fn) CBINP(tag, tag, fn, 1)
 
 /* join: describes at least both operands */
-//@check id=join fn=_ZNK4ikos10congruenceINS_8z_numberEEorERKS2_ props=C08,C04 defs=ZM_SMALL=16,ZBITS=3 replace=_ZN4ikos10congruenceINS_8z_numberEEC2ES1_S1_,_ZNK4ikos10congruenceINS_8z_numberEE3gcdES1_S1_S1_
+//@check id=join fn=_ZNK4ikos10congruenceINS_8z_numberEEorERKS2_ props=C08,C04 replace=_ZN4ikos10congruenceINS_8z_numberEEC2ES1_S1_,_ZNK4ikos10congruenceINS_8z_numberEE3gcdES1_S1_S1_
+//@check id=join_b fn=_ZNK4ikos10congruenceINS_8z_numberEEorERKS2_ tag=join harness=h_join props=C08,C04 defs=ZM_SMALL=16,ZBITS=3 replace=_ZN4ikos10congruenceINS_8z_numberEEC2ES1_S1_,_ZNK4ikos10congruenceINS_8z_numberEE3gcdES1_S1_S1_
 CBIN(join, _ZNK4ikos10congruenceINS_8z_numberEEorERKS2_)
 /* meet: describes at least the integers common to both operands.  The loop (extended Euclid, after repair) runs fewer
  * than 2*ZBITS+2 times on moduli below 2^ZBITS. */
 //@check id=meet fn=_ZNK4ikos10congruenceINS_8z_numberEEanERKS2_ props=C08,C04 defs=ZM_SMALL=16,ZBITS=3 unwind=8 replace=_ZN4ikos10congruenceINS_8z_numberEEC2ES1_S1_
 CBIN(meet, _ZNK4ikos10congruenceINS_8z_numberEEanERKS2_)
-//@check id=widen fn=_ZNK4ikos10congruenceINS_8z_numberEEooERKS2_ props=C08,C05 defs=ZM_SMALL=16,ZBITS=3 replace=_ZN4ikos10congruenceINS_8z_numberEEC2ES1_S1_,_ZNK4ikos10congruenceINS_8z_numberEE3gcdES1_S1_S1_
+//@check id=widen fn=_ZNK4ikos10congruenceINS_8z_numberEEooERKS2_ props=C08,C05 replace=_ZN4ikos10congruenceINS_8z_numberEEC2ES1_S1_,_ZNK4ikos10congruenceINS_8z_numberEE3gcdES1_S1_S1_
+//@check id=widen_b fn=_ZNK4ikos10congruenceINS_8z_numberEEooERKS2_ tag=widen harness=h_widen props=C08,C05 defs=ZM_SMALL=16,ZBITS=3 replace=_ZN4ikos10congruenceINS_8z_numberEEC2ES1_S1_,_ZNK4ikos10congruenceINS_8z_numberEE3gcdES1_S1_S1_
 CBIN(widen, _ZNK4ikos10congruenceINS_8z_numberEEooERKS2_)
-//@check id=narrow fn=_ZNK4ikos10congruenceINS_8z_numberEEaaERKS2_ props=C08,C05 defs=ZM_SMALL=16,ZBITS=3
+//@check id=narrow fn=_ZNK4ikos10congruenceINS_8z_numberEEaaERKS2_ props=C08,C05
+//@check id=narrow_b fn=_ZNK4ikos10congruenceINS_8z_numberEEaaERKS2_ tag=narrow harness=h_narrow props=C08,C05 defs=ZM_SMALL=16,ZBITS=3
 CBIN(narrow, _ZNK4ikos10congruenceINS_8z_numberEEaaERKS2_)
 
 /* ---------------------------------------------------------------- arithmetic */
@@ -307,7 +324,8 @@ CBIN(udiv, _ZNK4ikos10congruenceINS_8z_numberEE4UDivERKS2_)
 //@check id=urem fn=_ZNK4ikos10congruenceINS_8z_numberEE4URemERKS2_ props=C08
 CBIN(urem, _ZNK4ikos10congruenceINS_8z_numberEE4URemERKS2_)
 
-//@check id=neg fn=_ZNK4ikos10congruenceINS_8z_numberEEngEv props=C08 defs=ZM_SMALL=16,ZBITS=3 replace=_ZN4ikos10congruenceINS_8z_numberEEC2ES1_S1_
+//@check id=neg fn=_ZNK4ikos10congruenceINS_8z_numberEEngEv props=C08 replace=_ZN4ikos10congruenceINS_8z_numberEEC2ES1_S1_
+//@check id=neg_b fn=_ZNK4ikos10congruenceINS_8z_numberEEngEv tag=neg harness=h_neg props=C08 defs=ZM_SMALL=16,ZBITS=3 replace=_ZN4ikos10congruenceINS_8z_numberEEC2ES1_S1_
 void _ZNK4ikos10congruenceINS_8z_numberEEngEv(C *ret, C *self)
 __CPROVER_requires(FRESH(neg, ret, sizeof(C)) && FRESH(neg, self, sizeof(C)) && c_ok(*self) && TOP(neg, GRANGE))
 __CPROVER_assigns(*ret)
